@@ -141,10 +141,13 @@ def toInt64 (x : F64) : Int :=
   if minInt64 ≤ t ∧ t ≤ maxInt64 then t else minInt64
 
 /-- Go on amd64: `uint64(f)`: below 2^63 via CVTTSD2SI (negatives wrap as the signed result
-reinterpreted), otherwise `(f - 2^63)` converted and the top bit set. Result in [0, 2^64). -/
+reinterpreted; NaN gives 2^63), otherwise `(f - 2^63)` converted and the top bit OR-ed in, so
++Inf and values ≥ 2^64 give 2^63 (observed with go1.23.5). Result in [0, 2^64). -/
 def toUInt64 (x : F64) : Int :=
   if lt x (ofNat p63) then wrapU64 (toInt64 x)
-  else wrapU64 (toInt64 (sub x (ofNat p63)) + (p63 : Int))   -- XOR of the top bit = add mod 2^64
+  else
+    let v := toInt64 (sub x (ofNat p63))
+    if v < 0 then (p63 : Int) else v + (p63 : Int)
 
 /-- `math.Floor` on finite values. -/
 def floorInt (x : F64) : Int :=
